@@ -378,7 +378,7 @@ var Probes = []Probe{
 		p.Create(a2, "h")
 		p.Rename(a, "h", b, "h") // stale source directory
 		p.Lookup(a2, "h")
-		p.Rename(a, "h", a, "h2") // same stale handle twice
+		p.Rename(a, "h", a, "h2")  // same stale handle twice
 		p.Rename(a2, "h", a, "h3") // live source directory, stale target directory of the same inode number
 		p.Rename(a, "h", a2, "h4") // the other way round
 		p.Lookup(a2, "h")
@@ -501,8 +501,8 @@ func init() {
 				p.Write(f, off*B, 450*B, 2)
 			}
 			p.Trunc(f, []int{0, 100, 3 * B}[round]) // handed to the background shrinker
-			p.Remove(p.Root, "big")                  // while it runs
-			g := p.Create(p.Root, "g").RFh           // may reuse the inode number
+			p.Remove(p.Root, "big")                 // while it runs
+			g := p.Create(p.Root, "g").RFh          // may reuse the inode number
 			p.Write(g, 5000, 100, 2)
 			p.Trunc(g, 20*B)
 			p.Read(g, 0, 16*B)
